@@ -38,10 +38,18 @@ def plan(tier, seed):
 
 
 def _vec4_for(r, system, core):
+    """-> (rv, label, mild): tau-stored operands must stay representable (t >= 0) through every boost of the laws:
+    forward timelike vectors always do; a spacelike vector with t >= 0.7|p| does under |beta| <= 0.5 (mild=True)"""
     if system[2] == "tau":
-        return gen.vec4(r, core=core, wide=not core, causal=r.choice(["timelike", "timelike", "nearcone+"]) if not core else "timelike",
-                        forward=True)
-    return gen.vec4(r, core=core, wide=not core)
+        if r.random() < 0.35:
+            v3, lab = gen.vec3(r, core=True)
+            t = gen._round_dyadic(v3.mag * gen.dyadic(r, 0.72, 0.95), 40)
+            return R.RV(v3.x, v3.y, v3.z, t), lab + ":spacelike:fwd:tau", True
+        rv, lab = gen.vec4(r, core=core, wide=not core, causal=r.choice(["timelike", "timelike", "nearcone+"]) if not core else "timelike",
+                           forward=True)
+        return rv, lab, False
+    rv, lab = gen.vec4(r, core=core, wide=not core)
+    return rv, lab, False
 
 
 def _gamma2(b2):
@@ -65,10 +73,11 @@ def run_shard(spec, tier, seed):
 
     for di in range(n):
         # ------------------------------------------------------------------ operands
-        a_rv, alab = _vec4_for(r, vsys, core)
+        a_rv, alab, mild_a = _vec4_for(r, vsys, core)
         # second vector for the invariance law, in a rotating system
         bsys = S4[(di * 5 + 1) % 12]
-        b_rv, blab = _vec4_for(r, bsys, core)
+        b_rv, blab, mild_b = _vec4_for(r, bsys, core)
+        mild = mild_a or mild_b
         try:
             a_l, b_l = mk(a_rv, vsys, di % 2 == 0), mk(b_rv, bsys, di % 3 == 0)
         except R.NotRepresentable:
@@ -81,6 +90,8 @@ def run_shard(spec, tier, seed):
         # ------------------------------------------------------------------ boost_beta3, all booster systems
         for s3 in S3:
             beta_rv, _ = gen.beta3(r, core=core, mp=mode.mp)
+            if mild and beta_rv.mag > mpf("0.5"):
+                beta_rv = R.RV(beta_rv.x / 2, beta_rv.y / 2, beta_rv.z / 2)
             try:
                 be_l = mk(beta_rv, s3, di % 2 == 1)
                 nb_l = mk(R.op_neg(beta_rv, 3), s3, False)
@@ -105,6 +116,26 @@ def run_shard(spec, tier, seed):
                     type(Ab) is type(A) or (type(Ab).__name__.replace("Momentum", "Vector") == type(A).__name__.replace("Momentum", "Vector")),
                     {"got": type(Ab).__name__, "self": type(A).__name__})
 
+        # ------------------------------------------------------------------ zero velocity: every boost is the identity
+        for s3 in (("xy", "z"), ("rhophi", "z")):
+            z_l = mk(R.RV(0, 0, 0), s3, di % 2 == 0)
+            Z0 = mode.vec(z_l)
+            cell = f"{R.sysname(vsys)}|zero:{R.sysname(s3)}"
+            det = {"a": a_l.describe(), "label": alab}
+            J.vec("boost_beta3(0) is the identity", cell, A.boost_beta3(Z0), A, unit, det)
+            J.vec("boost(zero 3-vector) is the identity", cell, A.boost(Z0), A, unit, det)
+            J.vec("boostCM_of_beta3(0) is the identity", cell, A.boostCM_of_beta3(Z0), A, unit, det)
+        for ax in "XYZ":
+            J.vec("boostX(beta=0) is the identity", f"{R.sysname(vsys)}|{ax}", getattr(A, "boost" + ax)(beta=mode.num(0)), A, unit, {"a": a_l.describe()})
+            J.vec("boostX(gamma=1) is the identity", f"{R.sysname(vsys)}|{ax}", getattr(A, "boost" + ax)(gamma=mode.num(1)), A, unit, {"a": a_l.describe()})
+        # a booster exactly at rest (representable with z-longitudinal storage): boost_p4 is the identity and agrees with beta3
+        for s4 in (("xy", "z", "t"), ("xy", "z", "tau"), ("rhophi", "z", "t"), ("rhophi", "z", "tau")):
+            rest = mk(R.RV(0, 0, 0, gen.dyadic(r, 0.5, 9)), s4, di % 2 == 1)
+            PR = mode.vec(rest)
+            cell = f"{R.sysname(vsys)}|rest:{R.sysname(s4)}"
+            det = {"a": a_l.describe(), "p4": rest.describe()}
+            J.vec("boost_p4(p at rest) is the identity", cell, A.boost_p4(PR), A, unit, det)
+            J.vec("boost_p4(p)=boost_beta3(p.to_beta3()) at rest", cell, A.boost_p4(PR), A.boost_beta3(PR.to_beta3()), unit, det)
         # ------------------------------------------------------------------ boost_p4, all booster systems
         for s4 in S4:
             p_rv, plab = gen.vec4(r, core=True, causal="timelike", forward=True)
@@ -118,6 +149,8 @@ def run_shard(spec, tier, seed):
                 continue
             pe = mode.exact(p_l)
             if not (pe.t > 0 and pe.tau2 > 0):
+                continue
+            if mild and pe.mag > mpf("0.5") * pe.t:
                 continue
             g2 = pe.t2 / pe.tau2
             cell = f"{R.sysname(vsys)}|{R.sysname(s4)}"
@@ -142,6 +175,8 @@ def run_shard(spec, tier, seed):
             meth = f"boost{ax}"
             b1 = gen.beta(r, core, mode.mp)
             b2 = gen.beta(r, True, mode.mp)
+            if mild:
+                b1, b2 = b1 / 4 if abs(b1) > mpf("0.25") else b1, b2 / 4
             g2 = 1 / (1 - b1 * b1)
             cell = f"{R.sysname(vsys)}|{ax}"
             det = {"a": a_l.describe(), "beta": mpmath.nstr(b1, 25), "beta2": mpmath.nstr(b2, 25), "label": alab}
@@ -161,6 +196,8 @@ def run_shard(spec, tier, seed):
                     continue  # an axis vector along z is not representable in theta/eta storage
                 J.vec("boostX(beta)=boost_beta3(beta e_x)", cell + "|" + R.sysname(s3), Ax, A.boost_beta3(mode.vec(ax_l)), unit, det, gain=g2)
             gm = gen.gamma(r, core)
+            if mild:
+                gm = (1 + mpf(2) ** -5) * (1 if gm > 0 else -1)
             bg = R.gamma_to_beta(gm)
             g2g = gm * gm
             detg = {"a": a_l.describe(), "gamma": mpmath.nstr(gm, 25), "label": alab}
